@@ -216,20 +216,20 @@ pub fn run_batch(property: &str, profile: Profile, seed: u64, runs: u64, threads
                     } else if v != u64::MAX && last[i].1.elapsed().as_secs() >= STALL_SECS {
                         let t = current[i].lock().unwrap().clone();
                         if let Some(t) = t {
+                            // nothing in a run reads a clock or waits for anything: a run that stops
+                            // making progress is a loop in the code under test.  For C09 that is the
+                            // property itself; elsewhere the call did not return what the property says
+                            // it returns.  (C15's fault plans have their own driver and no watchdog.)
                             let v = Violation {
-                                check: "C09.hang".into(),
+                                check: format!("{}.hang", property),
                                 site: "watchdog".into(),
                                 message: format!("a simulated run made no progress for {} s of wall time (a session normally takes under a millisecond)", STALL_SECS),
                                 op_id: 0,
                             };
                             let path = write_replay(property, &t, &v);
-                            if property == "C09" {
-                                println!("violation: check=C09.hang site=watchdog message={}", v.message);
-                                println!("VIOLATION property=C09 replay={}", path.display());
-                                std::process::exit(1);
-                            }
-                            eprintln!("harness error: a run stalled (trace kept at {}); nothing is claimed", path.display());
-                            std::process::exit(2);
+                            println!("violation: check={} site=watchdog message={}", v.check, v.message);
+                            println!("VIOLATION property={} replay={}", property, path.display());
+                            std::process::exit(1);
                         }
                     }
                 }
@@ -858,10 +858,19 @@ pub fn replay(path: &str) -> i32 {
             return 2;
         }
     };
-    let res = if trace.profile == "script" || trace.profile == "limits" || !trace.faults.is_empty() {
-        run_one(&trace)
-    } else {
-        run_one(&trace)
+    // (a replayed hang hangs again: the run gets the same wall-clock allowance as in a batch)
+    let (tx, rx) = std::sync::mpsc::channel();
+    let t2 = trace.clone();
+    std::thread::spawn(move || {
+        let _ = tx.send(run_one(&t2));
+    });
+    let res = match rx.recv_timeout(std::time::Duration::from_secs(STALL_SECS)) {
+        Ok(r) => r,
+        Err(_) => {
+            println!("violation: check={}.hang site=watchdog message=the replayed run made no progress for {} s", trace.property, STALL_SECS);
+            println!("VIOLATION property={} replay={}", trace.property, path);
+            return 1;
+        }
     };
     let want = trace.check.clone();
     let hit = res.violations.iter().find(|v| match &want {
